@@ -316,168 +316,7 @@ func checkC07(e *Engine, r *Report) {
 		}
 	}
 
-	// ---- rule 4: fit and normal memory --------------------------------------
-	{
-		fn := c.allocate
-		for _, ret := range Returns(fn) {
-			if !e.maySucceed(ret) {
-				continue
-			}
-			v := retValue(ret, 0)
-			okV := originAll(v, func(x ssa.Value) bool {
-				call, ok := x.(*ssa.Call)
-				return ok && e.IsCallTo(call, fset(c.handleOvercommit))
-			})
-			r.Check("R1:allocate-success-is-fit", "R1 fit+normal-memory", "allocate succeeds only with the verdict of handleOvercommit(req.zone)",
-				e.InstrPos(ret), fn, okV, "", true)
-		}
-		ec := e.callsTo(fn, ensure)
-		if len(ec) == 1 {
-			start := ec[0].(ssa.Instruction)
-			p := FindPath(PathQuery{Fn: fn, Block: func(in ssa.Instruction) bool { return in == start },
-				Target: func(in ssa.Instruction) bool { return c.isMutation(in) }})
-			r.Check("R1:normal-before-assign", "R1 fit+normal-memory", "allocate assigns a zone only after ensureNormalMemory", e.InstrPos(start), fn, p == nil, e.pathString(p), true)
-			r.Unreachable("R1:normal-must-succeed", "R1 fit+normal-memory", "allocate assigns a zone only if ensureNormalMemory succeeded", fn, start,
-				c.isMutation, func(cond ssa.Value) (bool, bool) {
-					k, v := callSucceeded(ec[0].Value())(cond)
-					return k, !v
-				})
-		} else {
-			r.Undecided("R1:normal-before-assign", "R1 fit+normal-memory", "allocate calls ensureNormalMemory exactly once", e.Pos(fn.Pos()), fn, fmt.Sprintf("%d calls", len(ec)))
-		}
-		// handleOvercommit argument in allocate/realloc covers the request's new zone
-		for _, hc := range e.callsTo(fn, c.handleOvercommit) {
-			a := callArgs(hc)
-			f, _ := loadedField(a[1])
-			r.Check("R1:fit-checks-new-zone@"+FnName(fn), "R1 fit+normal-memory", "allocate checks overcommit for the zone it just assigned (req.zone)",
-				e.InstrPos(hc), fn, f == c.fReqZone, "", true)
-		}
-	}
-	// ensureNormalMemory: nil returns are dominated by (zone & normal) != 0 for the zone that is (or gets) stored
-	fNormal := e.Field(pkgLM, "nodeMasks", "normal")
-	if fNormal == nil {
-		// the field lives in an anonymous/inner struct; look it up structurally
-		fNormal = findFieldByName(e, pkgLM, "normal")
-	}
-	for _, ret := range Returns(ensure) {
-		if e.ClassifyReturn(ret) == retNonNilErr {
-			continue
-		}
-		ok := false
-		for _, cf := range dominatingConds(ret.Block()) {
-			b, isB := cf.Cond.(*ssa.BinOp)
-			if !isB || !cf.Val || b.Op != token.NEQ {
-				continue
-			}
-			and, isA := b.X.(*ssa.BinOp)
-			if !isA || and.Op != token.AND || !isConstInt(b.Y, 0) {
-				continue
-			}
-			var x ssa.Value
-			if f, _ := loadedField(and.Y); f != nil && f.Name() == "normal" {
-				x = and.X
-			} else if f, _ := loadedField(and.X); f != nil && f.Name() == "normal" {
-				x = and.Y
-			}
-			if x == nil {
-				continue
-			}
-			// x is req.zone itself, or is stored into req.zone before the return
-			if f, _ := loadedField(x); f == c.fReqZone {
-				ok = true
-			}
-			for _, in := range ret.Block().Instrs {
-				if st, isS := in.(*ssa.Store); isS && fieldOfAddr(st.Addr) == c.fReqZone && st.Val == x {
-					ok = true
-				}
-			}
-		}
-		r.Check("R1:normal-memory-guard", "R1 fit+normal-memory",
-			"ensureNormalMemory succeeds only when the zone it leaves in the request intersects the normal-memory nodes", e.InstrPos(ret), ensure, ok, "", true)
-	}
-	// handleOvercommit / defaultHandleOvercommit: nil only when checkOvercommit reports nothing
-	for _, fn := range []*ssa.Function{c.handleOvercommit, defOC} {
-		if fn == nil {
-			continue
-		}
-		for _, ret := range Returns(fn) {
-			k, isConst := ret.Results[0].(*ssa.Const)
-			if !isConst || !k.IsNil() {
-				continue
-			}
-			ok := false
-			for _, cf := range dominatingConds(ret.Block()) {
-				b, isB := cf.Cond.(*ssa.BinOp)
-				if !isB || b.Op != token.EQL || !cf.Val || !isConstInt(b.Y, 0) {
-					continue
-				}
-				call, isC := b.X.(*ssa.Call)
-				if !isC {
-					continue
-				}
-				if bi, isBi := call.Common().Value.(*ssa.Builtin); isBi && bi.Name() == "len" {
-					if originAll(call.Common().Args[0], func(v ssa.Value) bool {
-						ex, ok := v.(*ssa.Extract)
-						if !ok || ex.Index != 0 {
-							return false
-						}
-						cc, ok := ex.Tuple.(*ssa.Call)
-						return ok && e.IsCallTo(cc, fset(checkOC))
-					}) {
-						ok = true
-					}
-				}
-			}
-			r.Check("R1:resolved-means-no-overcommit@"+FnName(fn), "R1 fit+normal-memory",
-				fn.Name()+" returns nil only when a fresh checkOvercommit() reported no overcommitted zone", e.InstrPos(ret), fn, ok, "", true)
-		}
-	}
-	// checkOvercommit flags zones with zoneFree < 0; zoneFree = capacity - usage; usage sums all sub-zones
-	{
-		okFlag := false
-		AllInstrs(checkOC, func(in ssa.Instruction) {
-			if ifi, ok := in.(*ssa.If); ok {
-				if b, ok := ifi.Cond.(*ssa.BinOp); ok && b.Op == token.LSS && isConstInt(b.Y, 0) {
-					if call, ok := b.X.(*ssa.Call); ok && e.IsCallTo(call, fset(zoneFree)) {
-						okFlag = true
-					}
-				}
-			}
-		})
-		r.Check("R1:overcommit-iff-negative-free", "R1 fit+normal-memory", "checkOvercommit flags a zone when zoneFree(zone) < 0", e.Pos(checkOC.Pos()), checkOC, okFlag, "", true)
-		okSub := false
-		for _, ret := range Returns(zoneFree) {
-			if b, ok := ret.Results[0].(*ssa.BinOp); ok && b.Op == token.SUB {
-				cx, okx := b.X.(*ssa.Call)
-				cy, oky := b.Y.(*ssa.Call)
-				if okx && oky && e.IsCallTo(cx, fset(zoneCap)) && e.IsCallTo(cy, fset(zoneUsage)) &&
-					paramIndex(cx.Common().Args[1]) == 1 && paramIndex(cy.Common().Args[1]) == 1 {
-					okSub = true
-				}
-			}
-		}
-		r.Check("R1:free=capacity-usage", "R1 fit+normal-memory", "zoneFree(z) = zoneCapacity(z) - zoneUsage(z)", e.Pos(zoneFree.Pos()), zoneFree, okSub, "", true)
-		okSubset := false
-		if zoneUsage != nil {
-			AllInstrs(zoneUsage, func(in ssa.Instruction) {
-				if ifi, ok := in.(*ssa.If); ok {
-					if b, ok := ifi.Cond.(*ssa.BinOp); ok && b.Op == token.EQL {
-						if and, ok := b.X.(*ssa.BinOp); ok && and.Op == token.AND && (paramIndex(and.X) == 1 || paramIndex(and.Y) == 1) {
-							other := and.Y
-							if paramIndex(and.Y) == 1 {
-								other = and.X
-							}
-							if b.Y == other {
-								okSubset = true
-							}
-						}
-					}
-				}
-			})
-			r.Check("R1:usage-sums-subzones", "R1 fit+normal-memory", "zoneUsage(zone) counts every zone whose nodes are a subset: (zone & nodes) == nodes",
-				e.Pos(zoneUsage.Pos()), zoneUsage, okSubset, "", true)
-		}
-	}
+	checkLibmemFit(e, r, c, ensure, defOC, checkOC, zoneFree, zoneCap, zoneUsage)
 
 	for p, n := range map[string]int{"R6:shrink-": 3, "R5:monotone@": 2, "R5:realloc-only-adds": 2, "R5:commit-replays-offer": 1,
 		"R1:updates-passthrough@": 3, "R1:allocate-success-is-fit": 1, "R1:fit-checks-new-zone@": 1, "R1:normal-memory-guard": 2,
@@ -642,4 +481,173 @@ func mutationBefore(c *lmCtx, fn *ssa.Function, ret *ssa.Return) bool {
 		}
 	})
 	return found
+}
+
+// checkLibmemFit (C07 rule 4, C04 rule 4): a successful admission is the
+// verdict of a fresh overcommit check on the zone just assigned, after normal
+// memory was ensured.
+func checkLibmemFit(e *Engine, r *Report, c *lmCtx, ensure, defOC, checkOC, zoneFree, zoneCap, zoneUsage *ssa.Function) {
+	// ---- rule 4: fit and normal memory --------------------------------------
+	{
+		fn := c.allocate
+		for _, ret := range Returns(fn) {
+			if !e.maySucceed(ret) {
+				continue
+			}
+			v := retValue(ret, 0)
+			okV := originAll(v, func(x ssa.Value) bool {
+				call, ok := x.(*ssa.Call)
+				return ok && e.IsCallTo(call, fset(c.handleOvercommit))
+			})
+			r.Check("R1:allocate-success-is-fit", "R1 fit+normal-memory", "allocate succeeds only with the verdict of handleOvercommit(req.zone)",
+				e.InstrPos(ret), fn, okV, "", true)
+		}
+		ec := e.callsTo(fn, ensure)
+		if len(ec) == 1 {
+			start := ec[0].(ssa.Instruction)
+			p := FindPath(PathQuery{Fn: fn, Block: func(in ssa.Instruction) bool { return in == start },
+				Target: func(in ssa.Instruction) bool { return c.isMutation(in) }})
+			r.Check("R1:normal-before-assign", "R1 fit+normal-memory", "allocate assigns a zone only after ensureNormalMemory", e.InstrPos(start), fn, p == nil, e.pathString(p), true)
+			r.Unreachable("R1:normal-must-succeed", "R1 fit+normal-memory", "allocate assigns a zone only if ensureNormalMemory succeeded", fn, start,
+				c.isMutation, func(cond ssa.Value) (bool, bool) {
+					k, v := callSucceeded(ec[0].Value())(cond)
+					return k, !v
+				})
+		} else {
+			r.Undecided("R1:normal-before-assign", "R1 fit+normal-memory", "allocate calls ensureNormalMemory exactly once", e.Pos(fn.Pos()), fn, fmt.Sprintf("%d calls", len(ec)))
+		}
+		// handleOvercommit argument in allocate/realloc covers the request's new zone
+		for _, hc := range e.callsTo(fn, c.handleOvercommit) {
+			a := callArgs(hc)
+			f, _ := loadedField(a[1])
+			r.Check("R1:fit-checks-new-zone@"+FnName(fn), "R1 fit+normal-memory", "allocate checks overcommit for the zone it just assigned (req.zone)",
+				e.InstrPos(hc), fn, f == c.fReqZone, "", true)
+		}
+	}
+	// ensureNormalMemory: nil returns are dominated by (zone & normal) != 0 for the zone that is (or gets) stored
+	fNormal := e.Field(pkgLM, "nodeMasks", "normal")
+	if fNormal == nil {
+		// the field lives in an anonymous/inner struct; look it up structurally
+		fNormal = findFieldByName(e, pkgLM, "normal")
+	}
+	for _, ret := range Returns(ensure) {
+		if e.ClassifyReturn(ret) == retNonNilErr {
+			continue
+		}
+		ok := false
+		for _, cf := range dominatingConds(ret.Block()) {
+			b, isB := cf.Cond.(*ssa.BinOp)
+			if !isB || !cf.Val || b.Op != token.NEQ {
+				continue
+			}
+			and, isA := b.X.(*ssa.BinOp)
+			if !isA || and.Op != token.AND || !isConstInt(b.Y, 0) {
+				continue
+			}
+			var x ssa.Value
+			if f, _ := loadedField(and.Y); f != nil && f.Name() == "normal" {
+				x = and.X
+			} else if f, _ := loadedField(and.X); f != nil && f.Name() == "normal" {
+				x = and.Y
+			}
+			if x == nil {
+				continue
+			}
+			// x is req.zone itself, or is stored into req.zone before the return
+			if f, _ := loadedField(x); f == c.fReqZone {
+				ok = true
+			}
+			for _, in := range ret.Block().Instrs {
+				if st, isS := in.(*ssa.Store); isS && fieldOfAddr(st.Addr) == c.fReqZone && st.Val == x {
+					ok = true
+				}
+			}
+		}
+		r.Check("R1:normal-memory-guard", "R1 fit+normal-memory",
+			"ensureNormalMemory succeeds only when the zone it leaves in the request intersects the normal-memory nodes", e.InstrPos(ret), ensure, ok, "", true)
+	}
+	// handleOvercommit / defaultHandleOvercommit: nil only when checkOvercommit reports nothing
+	for _, fn := range []*ssa.Function{c.handleOvercommit, defOC} {
+		if fn == nil {
+			continue
+		}
+		for _, ret := range Returns(fn) {
+			k, isConst := ret.Results[0].(*ssa.Const)
+			if !isConst || !k.IsNil() {
+				continue
+			}
+			ok := false
+			for _, cf := range dominatingConds(ret.Block()) {
+				b, isB := cf.Cond.(*ssa.BinOp)
+				if !isB || b.Op != token.EQL || !cf.Val || !isConstInt(b.Y, 0) {
+					continue
+				}
+				call, isC := b.X.(*ssa.Call)
+				if !isC {
+					continue
+				}
+				if bi, isBi := call.Common().Value.(*ssa.Builtin); isBi && bi.Name() == "len" {
+					if originAll(call.Common().Args[0], func(v ssa.Value) bool {
+						ex, ok := v.(*ssa.Extract)
+						if !ok || ex.Index != 0 {
+							return false
+						}
+						cc, ok := ex.Tuple.(*ssa.Call)
+						return ok && e.IsCallTo(cc, fset(checkOC))
+					}) {
+						ok = true
+					}
+				}
+			}
+			r.Check("R1:resolved-means-no-overcommit@"+FnName(fn), "R1 fit+normal-memory",
+				fn.Name()+" returns nil only when a fresh checkOvercommit() reported no overcommitted zone", e.InstrPos(ret), fn, ok, "", true)
+		}
+	}
+	// checkOvercommit flags zones with zoneFree < 0; zoneFree = capacity - usage; usage sums all sub-zones
+	{
+		okFlag := false
+		AllInstrs(checkOC, func(in ssa.Instruction) {
+			if ifi, ok := in.(*ssa.If); ok {
+				if b, ok := ifi.Cond.(*ssa.BinOp); ok && b.Op == token.LSS && isConstInt(b.Y, 0) {
+					if call, ok := b.X.(*ssa.Call); ok && e.IsCallTo(call, fset(zoneFree)) {
+						okFlag = true
+					}
+				}
+			}
+		})
+		r.Check("R1:overcommit-iff-negative-free", "R1 fit+normal-memory", "checkOvercommit flags a zone when zoneFree(zone) < 0", e.Pos(checkOC.Pos()), checkOC, okFlag, "", true)
+		okSub := false
+		for _, ret := range Returns(zoneFree) {
+			if b, ok := ret.Results[0].(*ssa.BinOp); ok && b.Op == token.SUB {
+				cx, okx := b.X.(*ssa.Call)
+				cy, oky := b.Y.(*ssa.Call)
+				if okx && oky && e.IsCallTo(cx, fset(zoneCap)) && e.IsCallTo(cy, fset(zoneUsage)) &&
+					paramIndex(cx.Common().Args[1]) == 1 && paramIndex(cy.Common().Args[1]) == 1 {
+					okSub = true
+				}
+			}
+		}
+		r.Check("R1:free=capacity-usage", "R1 fit+normal-memory", "zoneFree(z) = zoneCapacity(z) - zoneUsage(z)", e.Pos(zoneFree.Pos()), zoneFree, okSub, "", true)
+		okSubset := false
+		if zoneUsage != nil {
+			AllInstrs(zoneUsage, func(in ssa.Instruction) {
+				if ifi, ok := in.(*ssa.If); ok {
+					if b, ok := ifi.Cond.(*ssa.BinOp); ok && b.Op == token.EQL {
+						if and, ok := b.X.(*ssa.BinOp); ok && and.Op == token.AND && (paramIndex(and.X) == 1 || paramIndex(and.Y) == 1) {
+							other := and.Y
+							if paramIndex(and.Y) == 1 {
+								other = and.X
+							}
+							if b.Y == other {
+								okSubset = true
+							}
+						}
+					}
+				}
+			})
+			r.Check("R1:usage-sums-subzones", "R1 fit+normal-memory", "zoneUsage(zone) counts every zone whose nodes are a subset: (zone & nodes) == nodes",
+				e.Pos(zoneUsage.Pos()), zoneUsage, okSubset, "", true)
+		}
+	}
+
 }
